@@ -127,8 +127,12 @@ func (d *recvDriver) publish(inst string, good bool) int {
 	name := ni.BuildName()
 	blob := goodBlob(inst, seq)
 	if !good {
-		blob = []byte("this is not a gzip stream")
-		if seq%2 == 0 {
+		switch seq % 3 {
+		case 0:
+			blob = []byte("this is not a gzip stream")
+		case 1:
+			blob = blob[:len(blob)/2] // a truncated transfer of a valid snapshot: the gzip stream ends unexpectedly
+		default:
 			blob = gz([]byte{0x1a, 0xff, 0xff, 0xff, 0xff, 0xff, 0xff, 0xff, 0xff, 0xff, 0x01}) // valid gzip, hostile protobuf
 		}
 	}
